@@ -514,9 +514,27 @@ def _sum_log(ps):
     return sum(math.log(p) for p in ps)
 
 
+def well_formed(case):
+    """every observed atom and every body atom is defined by some clause of the program (inputs of the
+    stated space always are; shrink candidates that drop clauses may not be - observing an undefined
+    atom is a user error that lfi rightly reports)"""
+    try:
+        clauses = parse_template(case["template"])
+    except Exception:  # noqa
+        return False
+    pred = lambda a: a.split("(")[0].strip()  # noqa
+    defined = set(pred(a) for heads, _ in clauses for _, a in heads)
+    used = set(pred(a) for _, body in clauses for _, a in body)
+    used |= set(pred(a) for e in case["examples"] for a, _ in e)
+    return bool(clauses) and used <= defined and any(p is not None and p.startswith("t") for h, _ in clauses for p, _ in h)
+
+
 def judge(case, obs):
     """-> (symptoms: {symptom: detail}, notes: set of unjudged / trivia categories)"""
     syms, notes = {}, set()
+    if not well_formed(case):
+        notes.add("unjudged:not-well-formed")
+        return syms, notes
     if obs["status"].startswith("crash:"):
         syms[obs["status"]] = obs.get("exception", "")
         return syms, notes
